@@ -126,7 +126,9 @@ class Path:
         if n is None:
             n = z3.Int(nm + ".n")
             self.assume(n >= 0)
-        return Arr(n, lambda k, f=f: f(k), kind, dtype=dtype, name=nm)
+        a = Arr(n, lambda k, f=f: f(k), kind, dtype=dtype, name=nm)
+        a._init_at = a.at      # contents at creation (in-place stores replace .at; replay needs the input)
+        return a
 
     def assume(self, fact):
         if fact is True:
@@ -1697,6 +1699,8 @@ class Interp:
         if isinstance(e.op, ast.UAdd):
             return v
         if isinstance(e.op, ast.Invert):
+            if hasattr(v, "pyvc_invert"):
+                return v.pyvc_invert(self)
             if isinstance(v, Arr) and v.kind == "bool":
                 return Arr(v.n, lambda k: z3.Not(v.at(k)), "bool")
             if isinstance(v, z3.BoolRef):
